@@ -793,8 +793,16 @@ void Run::check_invariants(const char *where) {
         for (int fd : expect) if (fd < FD_SETSIZE && !FD_ISSET(fd, &rs)) violate("C10", "fds_missing_socket", "open socket " + std::to_string(fd) + " missing from ares_fds read set (active=" + std::to_string(active) + ")");
         for (int fd = 0; fd < FD_SETSIZE; fd++) if (FD_ISSET(fd, &rs) && !expect.count(fd) && W.get(fd) && W.get(fd)->open) violate("C10", "fds_extra_socket", "ares_fds read set contains " + std::to_string(fd) + " which does not matter (udp without active queries)");
         for (int fd : open) { VFd *v = W.get(fd); if (v->kind == FD_TCP && v->write_blocked && v->tstate == TS_ESTABLISHED && fd < FD_SETSIZE && !FD_ISSET(fd, &ws)) violate("C10", "fds_missing_write", "tcp socket " + std::to_string(fd) + " has a pending partial write but is not in the write set"); }
-        ares_socket_t socks[ARES_GETSOCK_MAXNUM];
-        int bm = ares_getsock(c.ch, socks, ARES_GETSOCK_MAXNUM);
+        // the application's array may be larger than the 16 entries the returned bitmask can describe
+        ares_socket_t socks[48];
+        const ares_socket_t untouched = (ares_socket_t)-7777;
+        for (auto &x : socks) x = untouched;
+        int numsocks = (int)cfg.knob("getsock_numsocks", ARES_GETSOCK_MAXNUM);
+        if (numsocks < 1 || numsocks > 48) numsocks = ARES_GETSOCK_MAXNUM;
+        int bm = ares_getsock(c.ch, socks, numsocks);
+        for (int i = ARES_GETSOCK_MAXNUM; i < 48; i++) if (socks[i] != untouched) { violate("C10", "getsock_entry_beyond_bitmask", "ares_getsock(numsocks=" + std::to_string(numsocks) + ") filled array entry " + std::to_string(i) + " (socket " + std::to_string(socks[i]) + "), which the 16-socket bitmask cannot describe"); break; }
+        if (numsocks > ARES_GETSOCK_MAXNUM) note("getsock_with_large_array");
+        if (numsocks < ARES_GETSOCK_MAXNUM) for (int i = numsocks; i < ARES_GETSOCK_MAXNUM; i++) if (socks[i] != untouched) { violate("C10", "getsock_entry_beyond_array", "ares_getsock(numsocks=" + std::to_string(numsocks) + ") wrote array entry " + std::to_string(i)); break; }
         int listed = 0;
         for (int i = 0; i < ARES_GETSOCK_MAXNUM; i++) {
           bool r = ARES_GETSOCK_READABLE(bm, i), w = ARES_GETSOCK_WRITABLE(bm, i);
@@ -805,7 +813,8 @@ void Run::check_invariants(const char *where) {
           else if (!expect.count(socks[i])) violate("C10", "getsock_extra_socket", "ares_getsock reports " + std::to_string(socks[i]) + " which does not matter");
           if (w && !r) violate("C10", "getsock_write_not_read", "ares_getsock marks " + std::to_string(socks[i]) + " writable only");
         }
-        size_t want = expect.size() < ARES_GETSOCK_MAXNUM ? expect.size() : ARES_GETSOCK_MAXNUM;
+        size_t cap = (size_t)(numsocks < ARES_GETSOCK_MAXNUM ? numsocks : ARES_GETSOCK_MAXNUM);
+        size_t want = expect.size() < cap ? expect.size() : cap;
         if ((size_t)listed != want) violate("C10", "getsock_count", "ares_getsock lists " + std::to_string(listed) + " sockets, expected " + std::to_string(want));
       }
     }
